@@ -81,6 +81,11 @@ func (f *fileEvent) OnEvent(progress *PackageProgress) {
 			len(progress.Record), progress.ExtensionFields.ActiveSafetyType.String())
 		_ = os.MkdirAll(phone, os.ModePerm)
 		for name, pack := range progress.Record {
+			if name == "" || name == "." || name == ".." || strings.ContainsAny(name, "/\\") {
+				// 文件名只能是单个文件名 不能带路径 否则会写到终端目录之外
+				str += fmt.Sprintf("文件名不合法 不保存[%s]\n", name)
+				continue
+			}
 			savePath := fmt.Sprintf("./%s/%s", phone, name)
 			err := os.WriteFile(savePath, pack.StreamBody, os.ModePerm)
 			str += fmt.Sprintf("保存文件[%s] 文件大小[%d byte] 保存情况[%v]\n",
